@@ -8,7 +8,7 @@
    [new_reader (finalize w) = Some r] : NewReader on the sections Finalize produced;  theorem 4 says
    that going through the byte image changes nothing ([finalize_reader]). *)
 From Coq Require Import NArith List Lia.
-Require Import Pk.IndexFormat Pk.IndexFormatCodec Pk.IndexFormatHosts Pk.IndexFormatWriter.
+Require Import Pk.IndexFormat Pk.IndexFormatCodec Pk.IndexFormatHosts Pk.IndexFormatWriter Pk.IndexFormatRefuted.
 Import ListNotations.
 Open Scope N_scope.
 
@@ -68,3 +68,11 @@ Theorem C01_all_streams_enumerate : forall gcap L w r,
   new_reader (finalize w) = Some r ->
   map st_id (all_streams r) = ids_of L /\ (forall id, In id (ids_of L) -> r_min r <= id <= r_max r).
 Proof. intros gcap L w r H1 H2 H3 H4 H5. split; [exact (all_streams_ids gcap L w r H1 H2 H3 H4 H5)|exact (min_max_ids gcap L w r H1 H2 H3 H4 H5)]. Qed.
+
+(* ---------------- the reader before fix afb9f18, on the model ---------------- *)
+(* [new_reader_gen true] uses hostGroupEntry.Start as a byte offset. Capacity 20 (5 IPv4 hosts per group),
+   4 streams with hosts 10.0.0.1 .. 10.0.0.8: stream 4 was written with client 10.0.0.7 and reads back 10.0.0.4.
+   Reproduced on the Go code before the fix with 16390 streams (corpus regime big_v4_cs / big_v6_cs). *)
+Theorem C01_prefix_reader_start_as_bytes_refuted :
+  rf_client true 4 = Some [10; 0; 0; 4] /\ rf_client false 4 = Some [10; 0; 0; 7].
+Proof. exact (conj rf_unpatched rf_patched). Qed.
